@@ -140,7 +140,7 @@ def _registry():
     'C03': {'proofs': 'C03', 'streams': [S('loops', pstreams.c03_cases, flags='-')],
             'rule': 'loops stream: loop nests to depth 4, break/continue under 1-3 conditionals followed textually by nested loops, continue statements and blocks, body-local declarations, loops in functions/blocks/chains after histories; stray break/continue',
             'assumptions': []},
-    'C04': {'proofs': 'C04', 'streams': [S('scopes', pstreams.c04_cases, flags='-')],
+    'C04': {'proofs': 'C04', 'streams': [S('scopes', pstreams.c04_cases, flags='-'), S('scopes-gc', pstreams.c04_cases, flags='-', sched='1')],
             'rule': 'scopes stream: random interleavings of declare/assign/read/block/if/else/loop/function over 3 names to depth 5; every read printed', 'assumptions': ['dynamic scoping (a callee sees its caller\'s variables) is the language\'s rule']},
     'C05': {'proofs': 'C05', 'streams': [S('calls', pstreams.c05_cases, flags='-')],
             'rule': 'calls stream: arities 0-4 x argument counts, return from nests of if/else/loop/block, 9 call sites, parameter rebinding and callee locals vs caller variables, recursion depth to 200 (thorough 400), mutual recursion', 'assumptions': ['recursion deeper than the native stack is outside the model']},
@@ -178,7 +178,7 @@ def _registry():
             'rule': 'listops stream: operation sequences (<= 15, thorough <= 40) from the empty list through two aliases, positions {0, mid, len-1, len, len+1, -1, 0.5, huge, NaN, non-number}', 'assumptions': []},
     'C17': {'proofs': 'C17', 'streams': [S('text', pstreams.c17_cases, flags='-', extra_check=c17_check)],
             'rule': 'text stream: split/join on strings over {a, b, ক} with separators of length 0-3 (thorough: all |s|<=6, |sep|<=2 over 2 letters), join-then-split of lists, type names of all 7 types, wrong argument counts/types', 'assumptions': []},
-    'C18': {'proofs': 'C18', 'streams': [S('print', pstreams.c18_cases, flags='-')],
+    'C18': {'proofs': 'C18', 'streams': [S('print', pstreams.c18_cases, flags='-'), stream_cli],
             'rule': 'print stream: every scalar class, containers to depth 4 in every list/record mix, shared sub-containers, both print statements, unprintable values nested and top-level; exact chunk sequence compared (record entries in key order)',
             'assumptions': ['record entries are written in HashMap order: compared as a set of entries']},
     'C19': {'proofs': 'C19', 'streams': [stream_compose],
@@ -690,6 +690,15 @@ def stream_layout(ctx):
         variants.append(('comments', '\n'.join(' '.join(s) for s in stc) + '\n'))
         for mode, src in variants:
             cases.append({'src': src, 'kind': 'layout-' + mode, 'group': gi})
+    # comments at the statement boundaries of an imported module and around the import statement
+    modbody = ['নাম মান = ৭;', 'ফাং দেখ() {', '    ফেরত মান - ১;', '} ফেরত;']
+    gi0 = len(progs)
+    for k, (main, mod) in enumerate([
+            (['মডিউল ক = "lib/m.pakhi";', 'দেখাও ক/মান;', 'দেখাও ক/দেখ();'], modbody),
+            (['মডিউল ক = "lib/m.pakhi";', '# আমদানির পরে #', 'দেখাও ক/মান;', 'দেখাও ক/দেখ();'], ['# মডিউলের শিরোনাম', 'দুই লাইন #'] + modbody),
+            (['# আগে #', 'মডিউল ক = "lib/m.pakhi"; # একই লাইনে #', 'দেখাও ক/মান;', 'দেখাও ক/দেখ();', '# শেষে #'], modbody + ['# মডিউলের শেষে #']),
+            (['মডিউল ক = "lib/m.pakhi";', 'দেখাও ক/মান;', '# মাঝে \\# এখনও #', 'দেখাও ক/দেখ();'], [modbody[0], '# মাঝে #'] + modbody[1:])]):
+        cases.append({'src': '\n'.join(main) + '\n', 'files': [('lib/m.pakhi', '\n'.join(mod) + '\n')], 'kind': 'layout-import-comments', 'group': gi0})
     impl, model = diff_programs(ctx, 'layout', cases, flags='-', nontrivial=lambda s: True)
     groups = collections.defaultdict(list)
     for c, a in zip(cases, impl): groups[c['group']].append((c, ends_of(a, with_line=False)))
@@ -750,7 +759,27 @@ def stream_parse(ctx):
         srcs.append(('যদি সত্য { ' * d + 'দেখাও ১; ' + '} ' * d, 'deep-if'))
         srcs.append(('দেখাও ' + '১ + ' * d + '১;', 'long-chain'))
         srcs.append(('দেখাও ' + '@{"k" -> ' * d + '১' + ',}' * d + ';', 'deep-rec'))
+    # documented statement forms with nested sub-expressions: every token-level truncation
+    forms = ['নাম ক = ফ ( গ ( ১ , ঘ ( ২ ) ) , [ ৩ , @ { "k" -> ৪ , } ] ) ;', 'ক [ ০ ] [ "k" ] = ফ ( গ ( ১ ) ) + [ ২ ] [ ০ ] ;', 'দেখাও ফ ( ১ ) ( ২ ) [ ৩ ] ;',
+             'যদি ফ ( গ ( ১ ) ) == ২ { দেখাও ১ ; } অথবা যদি ! ( ক & খ ) { দেখাও ২ ; } অথবা { দেখাও ৩ ; }', 'ফাং ফ ( ক , খ ) { ফেরত ফ ( গ ( ক ) , খ ) ; } ফেরত ;',
+             'লুপ { যদি ক > ফ ( গ ( ১ ) ) { থামাও ; } আবার ; } আবার ;', 'মডিউল ম = "a" + "b.pakhi" ;', '_দেখাও @ { "a" -> ফ ( গ ( ১ ) ) , "b" -> [ ক ( খ ( ২ ) ) ] , } ;', 'নাম ক = - ফ ( - গ ( - ১ ) ) ;']
+    for f in forms:
+        toks = f.split(' ')
+        for k in range(len(toks) + 1): srcs.append((' '.join(toks[:k]), 'truncated-form'))
+        for k in range(len(toks)): srcs.append((' '.join(toks[:k] + toks[k + 1:]), 'form-minus-one'))
     lines = [parse_line(s) for s, _ in srcs]
+    # imports: alias spellings, comments around the splice point, failures
+    modsrc = 'নাম মান = ৯;\nফাং দেখ() {\n    ফেরত মান;\n} ফেরত;\n'
+    for main, files in [('মডিউল ক = "mod.pakhi";\nদেখাও ক/দেখ();\n', [('mod.pakhi', modsrc)]),
+                        ('মডিউল জ্যা/বর্গ = "mod.pakhi";\nদেখাও জ্যা/বর্গ/দেখ();\n', [('mod.pakhi', modsrc)]),
+                        ('মডিউল ক/খ/গ = "mod.pakhi";\nমডিউল ক = "mod.pakhi";\n', [('mod.pakhi', modsrc)]),
+                        ('মডিউল ক = "mod.pakhi"; # পরে #\nদেখাও ক/মান;\n', [('mod.pakhi', '# শিরোনাম #\n' + modsrc)]),
+                        ('মডিউল ক = "mod.pakhi";\n', [('mod.pakhi', '# শুধু মন্তব্য #')]),
+                        ('মডিউল ক = "mod.pakhi";\n', [('mod.pakhi', '')]),
+                        ('মডিউল ক = "d/" + "mod.pakhi";\n', [('d/mod.pakhi', 'মডিউল ভ = "inner.pakhi";\n' + modsrc), ('d/inner.pakhi', '# ভিতরের #\nনাম ভিতর = ১;\n')]),
+                        ('মডিউল ক = "নাই.pakhi";\n', []), ('মডিউল ক = "mod.txt";\n', [('mod.txt', modsrc)]), ('মডিউল ক = "mod";\n', [('mod', modsrc)]), ('মডিউল ক = "d/mod";\n', []),
+                        ('মডিউল ক = "";\n', []), ('মডিউল ক = "..";\n', []), ('মডিউল ক = ".pakhi";\n', []), ('মডিউল _টাইপ = "mod.pakhi";\nদেখাও _টাইপ/মান;\n', [('mod.pakhi', modsrc)])]:
+        srcs.append((main, 'import')); lines.append(parse_line(main, files))
     impl, model = oracle_and_model(ctx, lines, 'parse')
     origins = collections.Counter(o for _, o in srcs)
     kinds = collections.Counter()
@@ -789,7 +818,10 @@ def stream_cli(ctx):
     os.makedirs(d, exist_ok=True)
     progs = [('দেখাও "ঠিক";\n', 0, 'ঠিক\n', None), ('দেখাও "আগে";\n_এরর("বার্তা");\nদেখাও "পরে";\n', 1, 'আগে\n', 'RuntimeError: বার্তা'),
              ('দেখাও ১;\nদেখাও ১ + "a";\n', 1, '১\n', 'TypeError'), ('দেখাও অজানা;\n', 1, '', 'RuntimeError'), ('দেখাও "a\n', 1, '', 'SyntaxError'), ('দেখাও ১ $ ২;', 1, '', 'SyntaxError'),
-             ('নাম ক = [১];\nদেখাও ক[৫];\n', 1, '', 'RuntimeError'), ('মডিউল ক = "নাই.pakhi";\n', 1, '', 'RuntimeError'), ('যদি ১ {\n}\n', 1, '', 'RuntimeError'), ('}', 1, '', 'RuntimeError'), ('দেখাও (১', 1, '', None)]
+             ('নাম ক = [১];\nদেখাও ক[৫];\n', 1, '', 'RuntimeError'), ('মডিউল ক = "নাই.pakhi";\n', 1, '', 'RuntimeError'), ('যদি ১ {\n}\n', 1, '', 'RuntimeError'), ('}', 1, '', 'RuntimeError'), ('দেখাও (১', 1, '', None),
+             ('দেখাও "এক";\n_দেখাও "দুই";\n_দেখাও [১, "ক"];\nদেখাও অজানা;\n', 1, 'এক\nদুই[১, ক]', 'RuntimeError'), ('_দেখাও "শেষে নতুন লাইন নেই";\n', 0, 'শেষে নতুন লাইন নেই', None),
+             ('নাম শূ;\n_দেখাও "ক";\n_দেখাও "খ";\nদেখাও [১, শূ];\nদেখাও "পরে";\n', 1, 'কখ', 'RuntimeError'), ('_দেখাও "ক";\nদেখাও "খ";\n_দেখাও "গ";\n_এরর("থাম");\n', 1, 'কখ\nগ', 'RuntimeError: থাম'),
+             ('নাম র = [@{"নাম" -> ১,}];\nদেখাও র;\n_দেখাও র;\n', 0, '[@{"নাম":১,}]\n[@{"নাম":১,}]', None)]
     n = 0
     for src, status, stdout, errhead in progs:
         p = os.path.join(d, 'p.pakhi')
@@ -833,9 +865,10 @@ def stream_compose(ctx):
     raw = pstreams.c19_cases(ctx.rng, ctx.tier)
     cases = []
     for r in raw:
-        cases.append({'src': r['p1'], 'kind': 'p1', 'g': id(r)})
-        cases.append({'src': r['p2'], 'kind': 'p2', 'g': id(r)})
-        cases.append({'src': r['p1'] + r['p2'], 'kind': 'p1p2', 'g': id(r), 'shift': r['p1'].count('\n')})
+        bud = r.get('budget', 8000)
+        cases.append({'src': r['p1'], 'kind': 'p1', 'g': id(r), 'budget': bud})
+        cases.append({'src': r['p2'], 'kind': 'p2', 'g': id(r), 'budget': bud})
+        cases.append({'src': r['p1'] + r['p2'], 'kind': 'p1p2', 'g': id(r), 'shift': r['p1'].count('\n'), 'budget': bud})
     impl, model = diff_programs(ctx, 'compose', cases, flags='-', shrink=False)
     for i in range(0, len(cases), 3):
         o1, e1 = ends_of(impl[i]); o2, e2 = ends_of(impl[i + 1]); o12, e12 = ends_of(impl[i + 2])
